@@ -55,6 +55,7 @@ type World struct {
 	delimFail            []string
 	mustAdv              map[*ssa.Function]bool
 	mustAdvLeak          map[*ssa.Function]*ssa.BasicBlock
+	constMaps            map[*ssa.Global]*constMapInfo
 }
 
 func corePkg(path string) bool {
